@@ -49,6 +49,15 @@ CLAIMED["C16"] = dict(
     text="Theorems (closed): edges_char, nodes_char, edges_forward_exec, acyclic_exec, reach_exec_iff_chain, topo_keeps_wire_order_exec — for every operation list of any length over any wires. The implementation's DiGraph (node set, node attributes, edge set) is compared with the extracted model on generated programs, and the four graph axioms are checked directly on the networkx object.",
     note="Trusted: Coq kernel; extraction + driver; harness; networkx; registers of transforms are read from the implementation's RegRefTransform objects.", ref="5 C16")
 
+CLAIMED["C04"] = dict(
+    technique="Coq proof (instantiation = substitution at every depth; parameter-set invariants; refusals) + differential correspondence with the model's instantiate and the metamorphic predicate instance == load(substituted text)",
+    text="Theorems (closed): subst_term_den (the value of an instantiated argument is the symbolic argument's value under the assignment, in any arithmetic structure), inst_value_rel / inst_ops_rel / inst_vars_rel (every symbolic argument, also inside keyword lists and arrays, is replaced; nothing else changes), pars_invariant and pars_monotone (reported parameters cover all occurring ones), inst_closed and inst_denoted_pars_free (no parameter left), inst_missing_refused. Generated templates are instantiated by implementation and model and compared, and the instance is compared with the program loaded from the text with {p} replaced by (value). Recorded finding D16 (functions of parameters cannot be loaded).",
+    note=LOADER_NOTE + " sympy.lambdify is trusted to evaluate instantiated expressions; the expansion p -> p_i_j of array-valued arguments is performed by the harness for the model; the theorem 'instance = denote(substituted script)' at script level is checked per case, not proved.", ref="5 C04")
+CLAIMED["C07"] = dict(
+    technique="Coq proof (call expansion = rename of the included program's operations over modes in increasing order; refusal lemmas; history independence) + differential correspondence over directory layouts and working directories, and the metamorphic predicate load(main) == load(inlined main)",
+    text="Theorems (closed): expand_is_rename, expand_include_inv, sortZ_sorted/sortZ_perm (modes taken in increasing order), expand_modes, expand_independent_of_history / exec_stmt_history_independent (every call yields the same operations), arity/keyword refusals. Layouts with nested includes, relative/absolute/.. paths and repeated include lines are loaded from three working directories, compared with the model's include resolution and inlining and with the textually inlined program.",
+    note=LOADER_NOTE + " The operating system's path resolution is trusted; the model normalises paths lexically (symlinks are outside the model).", ref="5 C07")
+
 NOT_YET = {
 }
 
